@@ -17,7 +17,7 @@ chk("C03", "model_checking",
     BASE + "productions of one rule with identical parameter types share a method, so production identity is checked through the arguments",
     "definitional tree/post-order oracle in TLA+ evaluated by TLC on recorded action traces; trace validation against ParserRT", "DESIGN.md 3 C03")
 chk("C04", "translation_validation",
-    "lox's LALR automaton (dumped in-process from the working tree: item sets with lookaheads, transitions, remaining actions, conflict flag) and the CLI verdict are compared by TLC with a reference construction written from the textbook (canonical LR(1) collection merged by core, LALR.tla) and the documented precedence rule: verdict equality and automaton isomorphism (walk from the start state, equal item sets, equal transitions, allowed action per cell).",
+    "lox's LALR automaton (dumped in-process from the working tree: item sets with lookaheads, transitions, remaining actions, conflict flag) and the CLI verdict are compared by TLC with a reference construction written from the textbook (canonical LR(1) collection merged by core, LALR.tla) and the documented precedence rule: verdict equality and automaton isomorphism (walk from the start state, equal item sets, equal transitions, allowed action per cell). In addition the construction loop itself is modelled as written (LALRConstruct.tla: pending keys in sorted order, symbols in name order, merge into the state with the same kernel, re-queue on growth); every (state, symbol) visit the real ConstructLALR makes, reported by a verif-tag hook, must be the model's next visit, and the model must terminate with the reference automaton.",
     BASE + "harness/cmd/dump serialises lr1.ParserTable faithfully; cells on which the documentation is silent accept any verdict",
     "reference LALR(1) construction in TLA+ evaluated by TLC per grammar; isomorphism walk", "DESIGN.md 3 C04")
 chk("C05", "model_checking",
@@ -49,7 +49,7 @@ chk("C10", "translation_validation",
     BASE + "harness/cmd/dump serialises lr1.ParserTable / mode.Mode faithfully; the hook only forwards to table.AddRow/Array",
     "decode-and-compare in TLA+ (TableObs), product exploration (LexProduct), small-scope codec enumeration (TableCodec)", "DESIGN.md 3 C10")
 chk("C11", "model_checking",
-    "The reference driver and the state machine are modelled together (LexerTrace over LexerRT); every recorded run (all strings up to a bound + random long inputs, rule sets incl. nullable rules, accumulating fragments, modes, inputs ending inside a construct) is validated call by call, and the model's ghost segment list (token / discarded / error stretch / lost) must partition the input; reaching EOF is checked on the real code under a budget of 4*len+16 reads and 8*len+64 PushRune calls.",
+    "The reference driver and the state machine are modelled together (LexerTrace over LexerRT); every recorded run (all strings up to a bound + random long inputs, rule sets incl. nullable rules, accumulating fragments, modes, inputs ending inside a construct) is validated call by call against the model; the accounting itself is computed by LexAccount.tla from the *observed* PushRune results only (so it also judges runs that are no longer behaviours of the model): the segments token / discarded / error stretch must be consecutive and cover the input, nothing may be pending at EOF, and every token / discard segment must be text its rule can match (accumulated-fragment text followed by a match of a producing rule); reaching EOF is checked on the real code under a budget of 4*len+16 reads and 8*len+64 PushRune calls.",
     BASE + "budgets stand for non-termination; known findings matched by mechanism-level signatures",
     "trace validation of the driver+state-machine model with a ghost accounting variable", "DESIGN.md 3 C11")
 chk("C15", "model_checking",
